@@ -98,7 +98,9 @@ def _run(V, work, tier):
     # a relative root directory (".", "./", "sub/..") with the process standing in the root: whatever is served is what the
     # specification serves for the same location under the absolute root (the directory of a context-less load is the root)
     for r in dots:
-        ctx = "main" if r["ctx"] == "none" else r["ctx"]
+        # (a context-less relative location is resolved against the directory the process stands in: the root in the first
+        # pass - where main.lisp sits - and root/sub in the climbing-root pass - where x.lisp sits)
+        ctx = ("subx" if r.get("cwd") == "sub" else "main") if r["ctx"] == "none" else r["ctx"]
         want = model.get(("root", "root", "rel", ctx, "/".join(r["comps"])), "refused")
         if r["marker"] not in inside:
             V.add(None, "a file outside the root was served under the relative root %r (via %s): location %s (loading context %s) returned %s" % (r["root"], r["via"], "/".join(r["comps"]), r["ctx"], r["marker"]), r)
